@@ -3,7 +3,7 @@ CONSTANTS
   Kinds = {"Struct"}
   Abis = {"C", "system"}
   BAttrs = {"none", "a"}
-  FKinds = {"FFn"}
+  FKinds = {"FFn", "FStatic"}
   FAttrs = {"none"}
   MaxForeign = 1
   MaxLen = 4
